@@ -491,6 +491,156 @@ def differs_model(real, mod, fp):
     return None
 
 
+
+# ----------------------------------------------------------------------------- C integer conversions
+INT_MAX, LONG_MAX = 2 ** 31 - 1, 2 ** 63 - 1
+LOG2_10_NUM, LOG2_10_DEN = 7480317065143153, 2 ** 51
+INT_SITES = ["3x-degree", "3x-precision", "monomial-sparse-index/3x", "chebyshev-sparse-index", "2x-degree", "2x-precision",
+             "monomial-sparse-index/2x"]
+
+def gen_int_value(rng, site, n):
+    """a number to be converted by atoi / %d / %ld at `site`, aimed at the case splits of CIntProofs.v:
+    returns (class, value)"""
+    small_hi = {"3x-degree": 6, "2x-degree": 6, "3x-precision": 400, "2x-precision": 400}.get(site, n)
+    small_lo = 0 if "index" in site else 1
+    r = rng.random()
+    k = rng.choice([1, 1, 2, 3, rng.randint(4, 2 ** 20), rng.randint(2 ** 20, 2 ** 30)])
+    if "index" in site and rng.random() < 0.2:
+        return "out-of-bounds-plain", rng.choice([n + 1, n + 1, n + 2, n + 40, -1, -2, 1000])
+    if r < 0.30: return "wraps-to-small-positive", k * 2 ** 32 + rng.randint(max(small_lo, 1), max(small_hi, 1))
+    if r < 0.40: return "wraps-to-zero", k * 2 ** 32
+    if r < 0.52: return "wraps-to-negative", k * 2 ** 32 - rng.randint(1, 2 ** 31)
+    if r < 0.62: return "wraps-to-large-positive", k * 2 ** 32 + rng.randint(2 ** 20, 2 ** 31 - 1) if "index" in site else k * 2 ** 32 - rng.randint(1, 1000)
+    if r < 0.72: return "int-boundary", rng.choice([2 ** 31, 2 ** 31 + 1, 2 ** 32, 2 ** 32 + 1]) if site not in ("3x-degree", "2x-degree") else rng.choice([2 ** 31, 2 ** 32, 2 ** 32 + 1, 2 ** 32 + 2])
+    if r < 0.86: return "beyond-long", rng.choice([2 ** 63 - 1, 2 ** 63, 2 ** 64 + 2, 10 ** 19 + 3, int(gen_digits(rng, rng.randint(20, 40), True))])
+    if site in ("3x-precision", "2x-precision"):
+        return "in-range-large", rng.choice([65535, 65536, 10 ** 5, rng.randint(1000, 3 * 10 ** 6), rng.randint(1000, 3 * 10 ** 6)])
+    return "in-range", rng.randint(small_lo, small_hi)
+
+def gen_int_case(rng):
+    site = rng.choice(INT_SITES)
+    n = rng.randint(1, 5)
+    cls, v = gen_int_value(rng, site, n)
+    if site == "2x-precision":
+        # %ld does not wrap; the LOG2_10 product leaves the range of long near 2.777e18 (words between about 1e8 and
+        # there make mpf_set_prec ask for more memory than there is: not run)
+        r = rng.random()
+        if r < 0.3: cls, v = "in-range", rng.randint(0, 400)
+        elif r < 0.55: cls, v = "in-range-large", rng.choice([65535, 65536, 10 ** 5, rng.randint(1000, 3 * 10 ** 6)])
+        elif r < 0.8: cls, v = "product-beyond-long", rng.choice([3 * 10 ** 18, 2777 * 10 ** 15, 2 ** 62, 2 ** 63 - 1, 9 * 10 ** 18, rng.randint(2777 * 10 ** 15, 2 ** 63 - 1)])
+        else: cls, v = "beyond-long", rng.choice([2 ** 63, 2 ** 64 + 2, 10 ** 19 + 3, int(gen_digits(rng, rng.randint(20, 40), True))])
+    word = rng.choice(["", "", "", "+", "00"]) + str(v)
+    coef = lambda: str(rng.randint(-99, 99))
+    field = "degree" if "degree" in site else "prec" if "precision" in site else "index"
+    if site == "3x-degree":
+        m = (v % 2 ** 32) if (v % 2 ** 32) < 50 else n
+        opts = ["Degree=%s;" % word, "Integer;", "Real;"]; rng.shuffle(opts)
+        text = "\n".join(opts) + "\n" + " ".join(coef() for _ in range(m + 1)) + "\n"
+    elif site == "3x-precision":
+        ct = rng.choice(["Integer;", "FloatingPoint;", "Rational;"])
+        opts = ["Degree=%d;" % n, "Precision = %s;" % word, ct, "Real;"]; rng.shuffle(opts)
+        text = "\n".join(opts) + "\n" + " ".join((coef() + ".5") if ct[0] == "F" else coef() for _ in range(n + 1)) + "\n"
+    elif site in ("monomial-sparse-index/3x", "chebyshev-sparse-index"):
+        opts = ["Degree=%d;" % n, "Sparse;", "Integer;", "Real;"] + (["Chebyshev;"] if site.startswith("cheb") else [])
+        rng.shuffle(opts)
+        idx = [i for i in rng.sample(range(n + 1), rng.randint(1, n + 1)) if i != v % 2 ** 32]
+        rows = ["%d %s" % (i, coef()) for i in idx]
+        rows.insert(rng.randint(0, len(rows)), "%s %s" % (word, coef()))
+        text = "\n".join(opts) + "\n" + "\n".join(rows) + "\n"
+    elif site == "2x-degree":
+        m = (v % 2 ** 32) if (v % 2 ** 32) < 50 else n
+        text = "dri 0 %s\n%s\n" % (word, " ".join(coef() for _ in range(m + 1)))
+    elif site == "2x-precision":
+        text = "%s %s %d\n%s\n" % (rng.choice(["dri", "dri", "drq"]), word, n, " ".join(coef() if True else "" for _ in range(n + 1)))
+        if text.startswith("drq"): text = "drq %s %d\n%s\n" % (word, n, " ".join("%s 1" % coef() for _ in range(n + 1)))
+    else:
+        idx = [i for i in rng.sample(range(n + 1), rng.randint(1, n + 1)) if i != v % 2 ** 32]
+        rows = ["%d %s" % (i, coef()) for i in idx]
+        rows.insert(rng.randint(0, len(rows)), "%s %s" % (word, coef()))
+        text = "sri 0 %d %d\n%s\n" % (n, len(rows), "\n".join(rows))
+    return {"site": site, "class": cls, "written": v, "field": field, "text": text, "n": n}
+
+def int_in_range(case):
+    v, site = case["written"], case["site"]
+    if case["field"] == "degree": return 1 <= v <= INT_MAX - 1
+    if case["field"] == "index": return 0 <= v <= case["n"]
+    return 1 <= v <= INT_MAX if site == "3x-precision" else 0 <= v < 2 ** 51
+
+def int_predicate(case, real):
+    """the property on one of these files: None if it holds, else what is wrong.  A number that is outside the range
+    of its C type (or an index above the degree) must not be accepted as another number."""
+    if not real["ok"]:
+        return "well-formed input rejected: %s" % real.get("msg", "") if int_in_range(case) else None
+    v = case["written"]
+    if case["field"] == "degree" and real.get("degree") != v:
+        return "degree written %d, parsed object has degree %r" % (v, real.get("degree"))
+    if case["field"] == "index" and not (0 <= v <= case["n"]):
+        return "sparse index %d (degree %d) accepted: stored as another coefficient" % (v, case["n"])
+    if case["field"] == "prec":
+        exact = v * LOG2_10_NUM // LOG2_10_DEN
+        if real.get("prec") not in (exact, exact + 1):
+            return "precision written %d digits (%d bits), parsed object has prec = %r bits" % (v, exact, real.get("prec"))
+    return None
+
+def int_range_cases(ctx, h, n_cases, cov, fixed=None):
+    """numbers beyond (and at) the range of the C types they are converted to, at each of the seven conversion sites:
+    extracted model parser (atoi / scan_int / scan_long / prec_bits of CIntModel.v inside parse) against the real parsers;
+    the Coq witnesses of C10_integer_range_refuted first"""
+    rng = ctx.rng
+    d = os.path.join(ctx.scratch, "cint"); os.makedirs(d, exist_ok=True)
+    wit = [("3x-degree", "degree", 4294967298, 2, "Degree=4294967298;\nInteger;\nReal;\n1 2 3\n"),
+           ("3x-precision", "prec", 4294967306, 1, "Degree=1;\nPrecision=4294967306;\nReal;\n1.5 2.5\n"),
+           ("monomial-sparse-index/3x", "index", 4294967296, 2, "Degree=2;\nSparse;\nInteger;\nReal;\n4294967296 7\n2 1\n"),
+           ("chebyshev-sparse-index", "index", 4294967297, 2, "Degree=2;\nChebyshev;\nSparse;\nInteger;\nReal;\n4294967297 7\n2 1\n"),
+           ("2x-degree", "degree", 4294967298, 2, "dri 0 4294967298 1 2 3\n"),
+           ("monomial-sparse-index/2x", "index", 4294967296, 2, "sri 0 2 2 4294967296 7 2 1\n"),
+           ("2x-precision", "prec", 3 * 10 ** 18, 1, "dri 3000000000000000000 1 1 2\n")]
+    cases = [{"site": s_, "class": "coq-witness", "written": v, "field": f_, "text": t, "n": n} for (s_, f_, v, n, t) in wit]
+    cases += fixed or [gen_int_case(rng) for _ in range(n_cases)]
+    jobs = []
+    for k, c in enumerate(cases):
+        c["mode"] = c.get("mode") or rng.choice("FFTS")
+        p = os.path.join(d, "i_%d.pol" % k)
+        with open(p, "w") as f: f.write(c["text"])
+        jobs.append("%s %s" % (c["mode"], p))
+    blocks = run_harness_resume(ctx, h, jobs)
+    mout = ctx.run_model("polfile", "".join("TEXT %s\n" % xh(c["text"]) for c in cases)).splitlines()
+    if len(mout) != 2 * len(cases):
+        raise vf.InfraError("polfile driver TEXT: expected %d lines, got %d" % (2 * len(cases), len(mout)))
+    hist, reproduced, checked_rej = {}, {}, 0
+    for k, (c, blk) in enumerate(zip(cases, blocks)):
+        cov["evaluations"] += 1
+        key = "%s/%s" % (c["site"], c["class"]); hist[key] = hist.get(key, 0) + 1
+        rep = {"mode": c["mode"], "text_hex": c["text"].encode("latin-1").hex(), "what_for": "int-range", "site": c["site"],
+               "written": str(c["written"]), "field": c["field"], "n": c["n"], "class": c["class"]}
+        line = mout[2 * k + (1 if c["mode"] == "S" else 0)]
+        mod = parse_model_result(line.split(" ", 1)[1])
+        if "crash" in blk:
+            w32 = (c["written"] + 2 ** 31) % 2 ** 32 - 2 ** 31 if abs(c["written"]) < 2 ** 63 else -1
+            if c["site"] == "chebyshev-sparse-index" and not mod["ok"] and not (0 <= w32 <= c["n"]):
+                # the index (as converted by %d) is outside 0..n: the Chebyshev reader uses it unchecked
+                sig = "crash:chebyshev-reader/sparse-index-not-checked"
+            else:
+                sig = "crash:int-range/%s:%s" % (c["site"], c["written"])
+            ctx.violation(sig, "the real parser crashed on %r (index %d as int, degree %d): %s" % (c["text"][:60], w32, c["n"], blk["crash"][:300].replace("\n", " | ")),
+                          dict(rep, stderr=blk["crash"]))
+            continue
+        real = parse_real_result(blk["lines"])
+        bad = int_predicate(c, real)
+        if bad:
+            reproduced[c["site"]] = reproduced.get(c["site"], 0) + 1
+            ctx.violation("int-overflow:" + c["site"], "a number outside the range of its C type is silently taken for another one (%s): %s; file %r"
+                          % (c["class"], bad, c["text"][:70]), rep)
+        dm = differs_model(real, mod, real.get("struct", "")[-1:] == "f")
+        if dm and not real["ok"] and not int_in_range(c):
+            checked_rej += 1            # the repaired code: out-of-range numbers are refused (checked_digits of CIntParse.v)
+        elif dm:
+            cov["disagreements"] += 1
+            ctx.violation("correspondence:int-range/" + c["site"], "C integer conversion, model and real parser disagree (%s, written %d): %s on %r"
+                          % (c["class"], c["written"], dm, c["text"][:70]), rep, no_input=True)
+    cov["integer_conversion"] = {"cases": len(cases), "site/class": hist, "silently_wrapped_on_real_code": reproduced,
+                                 "out_of_range_refused_by_real_code_only": checked_rej}
+
 # ----------------------------------------------------------------------------- the check
 def run_harness(ctx, h, jobs, timeout=600):
     rc, out, err = vf.sh([h], input="\n".join(jobs) + "\n", timeout=timeout, env=ctx.san_env())
@@ -820,7 +970,12 @@ def do_replay(ctx, h):
     cov = {"evaluations": 1, "distinct_nontrivial": 1, "rule": "replay of one stored case", "samples": [obj.get("signature")],
            "disagreements": 0, "api_strings": 0, "trusted_base": ["replay"]}
     mode = obj.get("mode")
-    if mode in ("F", "T", "S") and "text_hex" in obj:
+    if obj.get("what_for") == "int-range":
+        c = {"site": obj["site"], "class": obj.get("class", "replay"), "written": int(obj["written"]), "field": obj["field"],
+             "text": bytes.fromhex(obj["text_hex"]).decode("latin-1"), "n": obj["n"], "mode": mode}
+        cov["disagreements"] = 0
+        int_range_cases(ctx, h, 0, cov, fixed=[c])
+    elif mode in ("F", "T", "S") and "text_hex" in obj:
         p = os.path.join(ctx.scratch, "replay.pol"); open(p, "wb").write(bytes.fromhex(obj["text_hex"]))
         rc, blocks, partial, err = run_harness(ctx, h, ["%s %s" % (mode, p)])
         if rc != 0 or not blocks:
@@ -878,7 +1033,7 @@ def run(ctx):
         return do_replay(ctx, h)
     rng = ctx.rng
     cov = {"evaluations": 0, "disagreements": 0, "api_strings": 0}
-    n_cases = ctx.pick(3000, 30000)
+    n_cases = int(os.environ.get("VERIF_C10_CASES", ctx.pick(3000, 30000)))     # the variable is for development runs only
     hist = {"kind": {}, "syntax": {}, "ctype": {}, "density": {}, "degree": {}, "precision": {}, "sparse_order": {},
             "option_order": {}, "layout": {}, "number_forms": {}, "entry_point": {}}
     def bump(h_, k): hist[h_][k] = hist[h_].get(k, 0) + 1
@@ -962,6 +1117,8 @@ def run(ctx):
     ctx.log("float predicate tie done (%d numbers)" % len(fp_samples))
     v2_header_cases(ctx, h, ctx.pick(1200, 12000), cov)
     ctx.log("2.x header cases done")
+    int_range_cases(ctx, h, ctx.pick(400, 4000), cov)
+    ctx.log("integer conversion cases done")
     api_cases(ctx, h, ctx.pick(300, 3000), cov)
     ctx.log("api done")
     replay_witnesses(ctx, h, cov)
@@ -982,12 +1139,13 @@ def run(ctx):
             "extraction: ExtrOcamlBasic + ExtrOcamlNativeString only; hand-written driver ocaml/polfile_driver.ml (hex I/O, record assembly)",
             "harness/c10_parse.c prints mpq/mpf fields exactly (mpz_out_str, mpf_get_str base 16)",
             "modelled, not verified: GMP mpz/mpq/mpf_set_str (by mpq_str_value/decimal_value), getline/tokenisation at the level of lines and "
-            "white-space separated tokens, C int overflow not modelled",
+            "white-space separated tokens; atoi / sscanf %d / %ld and the double product with LOG2_10 as glibc and x86-64 (cvttsd2si) "
+            "perform them (CIntModel.v; checked on every run through the real parsers, out-of-range numbers included)",
             "the generator's Fraction oracle for API strings (independent of the Coq model)",
-            "2.x reader: sscanf %d/%ld/%3s modelled by scan_int / the first three characters; exits identified on the real side by the error message",
+            "2.x reader: sscanf %d/%ld/%3s modelled by scan_int / scan_long / the first three characters; exits identified on the real side by the error message",
         ],
     })
     return ctx.finish("proof", cov, [
         "mpf_set_str/mpq_set_str behave as decimal_value/mpq_str_value on the rendered tokens (checked by the tie on every case)",
-        "LOG2_10 product is computed exactly enough by the double multiplication for the precisions used (checked: PREC compared on every case)",
+        "the double product with LOG2_10 is IEEE round-to-nearest-even on 53 bits and out-of-range double->long gives LONG_MIN (x86-64; PREC compared on every case)",
     ])
